@@ -1,7 +1,7 @@
 SPECIFICATION Spec
 CONSTANTS
-  Caps = {1, 2, 4, 5, 6, 16}
-  MaxOps = 9
-  Probe = FALSE
+  Caps = {1, 5, 6}
+  MaxOps = 8
+  Probe = TRUE
 INVARIANTS Emit InvCredit InvNoStarvation
 CHECK_DEADLOCK FALSE
